@@ -40,12 +40,40 @@ theorem tr_appendBuf (v w : Nat) (b : Buf) (hb : BInv v b) (L : Ledger) (hl : Li
       subst h4
       tr_simp [Gen.appendBuf, Gen.resize, Buf.append, Buf.resize, argObj]
 
-/-
-  OPEN: the same equality for `append(const byte* data, usize size)` –
-    theorem tr_append … : (Gen.append v t (objOf b) (argPtr lo) data.length (heapOf b L data)).map out = (b.append data 0 L).map outB
-  The body IS translated (Gen.append, incl. the copy-first path `return append(Buffer(data, size))` through the generated
-  constructor / append(const Buffer&) / destructor) and re-generated on every run, but the symbolic execution of its three
-  large branches exceeds the proof budget of this round; the method is tied by the correspondence run as before.
--/
+set_option maxHeartbeats 1600000 in
+/-- `append(data, size)` with `data` outside the object: the copy-first test and `inside` are false, then as `append(const Buffer&)` -/
+theorem tr_append (v t : Nat) (b : Buf) (hb : BInv v b) (L : Ledger) (hl : LiveIn b L) (hbd : Bounded L)
+    (data : List Byte) (lo : Bool) :
+    (Gen.append v t (objOf b) (argPtr lo) data.length (heapOf b L data)).map out = (b.append data 0 L).map outB := by
+  obtain ⟨st, s, e, cap⟩ := b
+  cases st with
+  | own id m =>
+    own_setup hb hl hbd
+    by_cases h1 : e - s + data.length > cap
+    · by_cases h2 : e - s < e - s + data.length
+      · cases lo <;> (unfold Gen.append; simp only [objOf, argPtr, branch, band, bor, truthy, pge, ple, plt, pgt, prel, padd, bind, pure, val, Option.map, reduceCtorEq, if_false, if_true, decide_true, decide_false, Nat.not_lt_zero, Nat.le_zero_eq, Nat.one_ne_zero, Nat.zero_lt_one, Bool.false_eq_true]; tr_simp [Gen.resize, Buf.append, Buf.resize])
+      · have h3 : data.length = 0 := by omega
+        exfalso; omega
+    · have hx : data.length ≤ s + (e - s + data.length) := by omega
+      by_cases h3 : s + (e - s + data.length) ≤ cap <;> cases lo <;> (unfold Gen.append; simp only [objOf, argPtr, branch, band, bor, truthy, pge, ple, plt, pgt, prel, padd, bind, pure, val, Option.map, reduceCtorEq, if_false, if_true, decide_true, decide_false, Nat.not_lt_zero, Nat.le_zero_eq, Nat.one_ne_zero, Nat.zero_lt_one, Bool.false_eq_true]; tr_simp [Gen.resize, Buf.append, Buf.resize])
+  | att m =>
+    simp only [BInv] at hb
+    obtain ⟨rfl, hse, hem⟩ := hb
+    have hsm : s ≤ m.length := by omega
+    by_cases hd : data = []
+    · subst hd
+      by_cases h1 : e - s > 0 <;> cases lo <;> (unfold Gen.append; simp only [objOf, argPtr, branch, band, bor, truthy, pge, ple, plt, pgt, prel, padd, bind, pure, val, Option.map, reduceCtorEq, if_false, if_true, decide_true, decide_false, Nat.not_lt_zero, Nat.le_zero_eq, Nat.one_ne_zero, Nat.zero_lt_one, Bool.false_eq_true]; tr_simp [Gen.resize, Buf.append, Buf.resize])
+    · have hpos : data.length > 0 := List.length_pos_iff.2 hd
+      have h1 : e - s + data.length > 0 := by omega
+      have h2 : e - s < e - s + data.length := by omega
+      cases lo <;> (unfold Gen.append; simp only [objOf, argPtr, branch, band, bor, truthy, pge, ple, plt, pgt, prel, padd, bind, pure, val, Option.map, reduceCtorEq, if_false, if_true, decide_true, decide_false, Nat.not_lt_zero, Nat.le_zero_eq, Nat.one_ne_zero, Nat.zero_lt_one, Bool.false_eq_true]; tr_simp [Gen.resize, Buf.append, Buf.resize])
+  | dflt c =>
+    simp only [BInv] at hb
+    obtain ⟨rfl, rfl, rfl, rfl⟩ := hb
+    by_cases h1 : data.length > 0
+    · cases lo <;> (unfold Gen.append; simp only [objOf, argPtr, branch, band, bor, truthy, pge, ple, plt, pgt, prel, padd, bind, pure, val, Option.map, reduceCtorEq, if_false, if_true, decide_true, decide_false, Nat.not_lt_zero, Nat.le_zero_eq, Nat.one_ne_zero, Nat.zero_lt_one, Bool.false_eq_true]; tr_simp [Gen.resize, Buf.append, Buf.resize])
+    · have h4 : data = [] := List.eq_nil_of_length_eq_zero (by omega)
+      subst h4
+      cases lo <;> (unfold Gen.append; simp only [objOf, argPtr, branch, band, bor, truthy, pge, ple, plt, pgt, prel, padd, bind, pure, val, Option.map, reduceCtorEq, if_false, if_true, decide_true, decide_false, Nat.not_lt_zero, Nat.le_zero_eq, Nat.one_ne_zero, Nat.zero_lt_one, Bool.false_eq_true]; tr_simp [Gen.resize, Buf.append, Buf.resize])
 
 end Nstd.Buffer
